@@ -92,6 +92,9 @@ structure Hp where
   dim : Dim
   tr : Tr
   cond : Option Cond
+  /-- the order in which the label encoder of a choice list numbers the choices
+  (`LabelEncoder.fit`: `np.unique`, i.e. sorted, unless the categories have mixed types) -/
+  enc : List Val := match dim with | .cat cs => cs | _ => []
 
 structure Decl where
   hps : List Hp
@@ -205,7 +208,13 @@ def Dim.wf : Dim → Bool
   | .real lo hi _ => decide (lo ≤ hi)
   | .cat cs => !cs.isEmpty
 
-def Decl.wf (d : Decl) : Bool := d.hps.all (fun h => h.dim.wf)
+/-- … and the label encoder only knows declared choices -/
+def Hp.wf (h : Hp) : Bool :=
+  h.dim.wf && (match h.dim with
+               | .cat cs => h.enc.all (fun v => decide (v ∈ cs))
+               | _ => true)
+
+def Decl.wf (d : Decl) : Bool := d.hps.all (fun h => h.wf)
 
 /-- `Space.config_space is None`: no condition and no forbidden clause -/
 def Decl.unconstrained (d : Decl) : Bool :=
@@ -322,9 +331,9 @@ def invDim (ne : NumEnv) (h : Hp) (t : Slice) : Option Val :=
   | .int lo hi .uniform, _, [v] => some (.int (roundHalfEven (clip lo hi v)))
   | .int lo hi .logUniform, _, [v] => some (.int (roundHalfEven (clip lo hi (ne.pw v))))
   -- Categorical
-  | .cat cs, .label, [v] => choiceAt cs (roundHalfEven v)
+  | .cat _, .label, [v] => choiceAt h.enc (roundHalfEven v)
   | .cat cs, .normalize, [v] =>
-    if normOK v then choiceAt cs (roundHalfEven (v * (((cs.length : Int) - 1 : Int) : Rat))) else none
+    if normOK v then choiceAt h.enc (roundHalfEven (v * (((cs.length : Int) - 1 : Int) : Rat))) else none
   | .cat cs, .onehot, t =>
     if cs.length = 2 then
       match t with
@@ -391,17 +400,30 @@ def legalAll : List Hp → List Val → List Bool → Bool
   | _, _, _ => false
 
 /-- `Space.deactivate_inactive_dimensions` (after the fix).  With a ConfigSpace attached:
-inactive values are replaced by the canonical value, floats are rounded by ConfigSpace, and the
-configuration is validated — legal values (`IllegalValueError`), no forbidden clause among the
-active hyperparameters (`ForbiddenValueError`); `none` = it raises. -/
+1. `drop_inactive_values`: the values of the hyperparameters that are inactive for the given
+   values are dropped (here: replaced by the placeholder the method fills in at the end);
+2. ConfigSpace builds a `Configuration` from the rest — floats are rounded (`rnd`) — and
+   `deactivate_inactive_hyperparameters` drops what is inactive for the *rounded* values; a
+   hyperparameter that is active now but was dropped in step 1 is an
+   `ActiveHyperparameterNotSetError`;
+3. the result is validated: legal values (`IllegalValueError`), no forbidden clause among the
+   active hyperparameters (`ForbiddenValueError`).
+`none` = it raises. -/
 def deactivate (ne : NumEnv) (d : Decl) (x : Config) : Option Config :=
   if d.unconstrained then some x
   else
-    match canonAll ne d.hps x (activeList d x) with
+    let act1 := activeList d x
+    match canonAll ne d.hps x act1 with
     | none => none
-    | some y =>
-      let act := activeList d y
-      if legalAll d.hps y act && !(d.forbs.any (forbHolds d.hps y act)) then some y else none
+    | some y1 =>
+      let act2 := activeList d y1
+      if (List.zip act1 act2).any (fun p => !p.1 && p.2) then none
+      else
+        match canonAll { ne with rnd := fun q => q } d.hps y1 act2 with
+        | none => none
+        | some y =>
+          let act := activeList d y
+          if legalAll d.hps y act && !(d.forbs.any (forbHolds d.hps y act)) then some y else none
 
 /-- clip → `inverse_transform` → `deactivate_inactive_dimensions` -/
 def fin (ne : NumEnv) (d : Decl) (t : List Slice) : Option Config :=
@@ -421,12 +443,12 @@ def trDim (ne : NumEnv) (h : Hp) (v : Val) : Slice :=
   | .int lo hi .logUniform, .normalize, .int i => [(ne.lg i - ne.lg lo) / (ne.lg hi - ne.lg lo)]
   | .int _ _ .uniform, _, .int i => [(i : Rat)]
   | .int _ _ .logUniform, _, .int i => [ne.lg i]
-  | .cat cs, .label, v =>
-    match cs.findIdx? (fun c => decide (c = v)) with
+  | .cat _, .label, v =>
+    match h.enc.findIdx? (fun c => decide (c = v)) with
     | some i => [(i : Rat)]
     | none => []
   | .cat cs, .normalize, v =>
-    match cs.findIdx? (fun c => decide (c = v)) with
+    match h.enc.findIdx? (fun c => decide (c = v)) with
     | some i => [if cs.length ≤ 1 then 0 else (i : Rat) / (((cs.length : Int) - 1 : Int) : Rat)]
     | none => []
   | .cat cs, .onehot, v =>
